@@ -379,6 +379,10 @@ func deserializeRecipients(rawJWE *rawJSONWebEncryption) ([]*Recipient, error) {
 	}
 
 	for _, recipient := range recipients {
+		if recipient == nil {
+			return nil, errors.New("jwe recipients contain a null entry")
+		}
+
 		decodedEncKey, err := base64.RawURLEncoding.DecodeString(recipient.EncryptedKey)
 		if err != nil {
 			return nil, err
